@@ -220,6 +220,21 @@ def random_history(rng, sim, ncalls, skip_last):
     return calls
 
 
+def scribble(data):
+    """what a caller may do with the arrays it was handed: post-process them IN PLACE (the reading functions must
+    hand out arrays of their own, never objects they will hand out again)"""
+    if not isinstance(data, dict):
+        return
+    for k, col in data.items():
+        if k == "it" or not isinstance(col, (list, tuple)):
+            continue
+        for a in col:
+            if isinstance(a, np.ndarray) and a.flags.writeable and a.dtype.kind == "f":
+                a *= -3.0
+                a += 0.125
+
+
+
 def run_history(ctx, root, desc, calls):
     """-> (lines, real outputs [(status, rows, dump)], #violations)"""
     sim = etgen.Sim(root, desc).write()
@@ -233,6 +248,7 @@ def run_history(ctx, root, desc, calls):
                 data = C11.do_read(param, call, split_per_it=call["split"])
                 status, diff = "ok", C11.check_against_truth(sim, call, data)
                 rows = real_rows(sim, call, data)
+                scribble(data)          # after everything was compared: the caller post-processes its arrays in place
             except Exception as ex:  # noqa
                 status, rows, diff = "err", [], "raised %s: %s" % (type(ex).__name__, str(ex)[:200])
             dump = dump_cache(sim)
